@@ -16,6 +16,7 @@ import numpy as np
 from mc import poolrun as PR
 from mc import tape as T
 from mc.acc import Acc
+from checks.pool_grid import NO_ROW_CANDIDATES
 from subjects import pool as SP
 
 PROPERTY = "C08"
@@ -98,7 +99,7 @@ def run_labeling(acc, subj, pname, X, lab, tier):
             key = (subj.name, pname, lab, "repr", mode, bs)
             o = _q(subj, X, y, cand, bs)
             acc.transitions += 1
-            if o[0] == "exc" and type(o[1]).__name__ == "MappingError" and mode == "rows":
+            if o[0] == "exc" and type(o[1]).__name__ == "MappingError" and mode == "rows" and subj.cls in NO_ROW_CANDIDATES:
                 acc.case(key, trivial=True)
                 acc.reject("MappingError for feature-row candidates")
                 continue
